@@ -1,4 +1,4 @@
-from typing import Any, Callable, Iterable, Union, Optional, List, Dict
+from typing import Any, Callable, Iterable, Sized, Union, Optional, List, Dict
 
 import functools
 
@@ -140,6 +140,7 @@ def _set_with_op(container: Any, key: Any, op: str, value: Any) -> Any:
     value = copy.deepcopy(value)
 
     if op == '+=':
+        _check_concat_size(container[key], value)
         container[key] += value
     elif op == '-=':
         container[key] -= value
@@ -313,6 +314,11 @@ def _reversed(container: Union[list, str]):
 
 def _check_array_size(arr: Union[list, dict]):
     if len(arr) >= MAX_ARRAY_SIZE:
+        raise ParserError(f'Array size overflow: {MAX_ARRAY_SIZE}')
+
+
+def _check_concat_size(op1: Any, op2: Any):
+    if isinstance(op1, list) and isinstance(op2, Sized) and len(op1) + len(op2) > MAX_ARRAY_SIZE:
         raise ParserError(f'Array size overflow: {MAX_ARRAY_SIZE}')
 
 
